@@ -42,21 +42,32 @@ def shared_table_case():
     return spec, muts, [('default', 'other', 'other'), ('other', 'default', 'default'), ('default', 'other', 'default')]
 
 
+def delete_side_case():
+    """the evolution deletes the only model that one of the databases holds (next to changes of the others)"""
+    spec, _, _ = shared_table_case()
+    ms = spec['apps'][0]['models']
+    ms[1] = dict(ms[1], name='LogEntry', table='vapp_logentry')
+    add = lambda model, field: {'t': 'AddField', 'model': model, 'field': field, 'ftype': 'IntegerField',
+                                'initial': None, 'attrs': [['null', 'true']]}
+    muts = [add('Member', 'since'), {'t': 'DeleteModel', 'model': 'LogEntry'}, add('Book', 'year')]
+    return spec, muts, [('default', 'other', 'default'), ('other', 'default', 'other'), ('default', 'other', 'other')]
+
+
 def run(ctx):
     evorig.setup()
     quick = ctx.tier == 'quick'
     ctx.rule = ('apps of 2-3 unrelated-or-same-side-related models, EVERY split of the models over the databases '
                 '`default` and `other`, creation plus a generated evolution with mutations on both sides, each database '
                 'evolved in turn; non-trivial = both databases own at least one model')
-    n = 6 if quick else 80
+    n = 8 if quick else 80
     done = tries = 0
     while done < n and tries < n * 6 and ctx.time_left() > 30:
         tries += 1
         only_splits = None
-        if tries == 1:
+        if tries <= 2:
             # two models of one app that share a table name, kept apart by the router (Django allows this once
             # routers are configured), next to a third model
-            spec, muts, only_splits = shared_table_case()
+            spec, muts, only_splits = shared_table_case() if tries == 1 else delete_side_case()
             names = [m['name'] for m in spec['apps'][0]['models']]
             sig0 = dbrig.sig_from_models(dbrig.build_models(spec))
             r = sigs.real_simulate(sig0, 'vapp', [sigs.real_mutation(m) for m in muts])
@@ -69,7 +80,7 @@ def run(ctx):
             models0 = dbrig.build_models(spec)
             sig0 = dbrig.sig_from_models(models0)
             muts, final = sigs.gen_sequence(ctx.rng, sig0, 'vapp', ctx.rng.randint(2, 4),
-                                            kinds=['AddField'] * 3 + ['ChangeField'] * 2 + ['DeleteField'])
+                                            kinds=['AddField'] * 3 + ['ChangeField'] * 2 + ['DeleteField', 'DeleteModel'])
             if final is None or not muts or dangling(final, set()):
                 continue
             if any(any(a in ('db_index', 'unique', 'db_table', 'related_model') for a, _ in m.get('attrs', []))
